@@ -192,9 +192,13 @@ def run(ctx: vlib.Ctx):
                             "distinct = (type tree, input) pairs; non-trivial = input is not the unmodified encoder output")
     ctx.theorems("props/C03_unpack.vo", ["C03_unpack_ref", "C03_field_unpacker", "C03_well_typed"])
     ctx.trusted += ["tools/kernels/k7_tuple_indexes.py (translator of the arg_indexes loop; validated each run against the source loop executed on abstract argument lists)"]
-    ctx.trusted += ["TyModel.v (cu/uk: hand-written model of unpack.py registry order incl. iteration of str/dict inputs, tuple surplus, field lookup) "
+    ctx.trusted += ["TyModel.v (cu/uk: hand-written model of unpack.py registry order incl. iteration of str/dict inputs, tuple surplus, field lookup, "
+                    "NamedTuple positions with trailing defaults, TypedDict required/optional keys) "
                     "tied by vm_compute correspondence; stdlib constructors (int/float/str, fromisoformat, UUID, Decimal, ..., decodebytes, Enum()) are oracle tables"]
-    ctx.assumptions += ["conformance of results (exact classes) and NamedTuple/TypedDict/abstract collections are decided by the oracle only"]
+    ctx.assumptions += ["abstract collections, tuples with unpacked segments, unions/literals are decided by the oracle only; NamedTuple (as_list form) and TypedDict are "
+                        "inside the Coq grammar (C03_unpack_ref, C03_well_typed + correspondence incl. inputs with one nested sequence cut short); sequence-like "
+                        "inputs of a NamedTuple/fixed tuple other than list/tuple/str (bytes, dicts with integer keys, NamedTuple instances) are not modelled; "
+                        "namedtuple_as_dict and generic NamedTuples/TypedDicts are oracle only"]
 
     k7_part(ctx)
     cases, bad, log = tycorr.run(ctx, "c03_ty", ctx.budget(60, 400), 2, depth=3, foreign=4)
